@@ -18,7 +18,11 @@ var keys = []string{"command", "commands", "plugins", "wait", "waiter", "block",
 var values = map[string]string{"command": "c", "commands": "[a, b]", "plugins": "[p#v1]", "wait": "~", "waiter": "~", "block": "b", "input": "i", "manual": "m", "trigger": "t", "group": "g"}
 
 // type values: the documented ones, near misses, and every kind-deciding KEY name used as a type (a key name is not a type)
-var types = []string{"", "command", "script", "wait", "waiter", "block", "input", "manual", "trigger", "group", "mystery", "Command", "7", "commands", "plugins", "steps", " wait", "waits"}
+var types = []string{"", "command", "script", "wait", "waiter", "block", "input", "manual", "trigger", "group", "mystery", "Command", "7", "commands", "plugins", "steps", " wait", "waits", "[command]", "{wait: x}", "true", "2.5", "[]", "[[wait]]"}
+
+// type values that are not strings (written unquoted): a number, a sequence (unhashable: seed C13k looked the
+// value up in a table keyed by any), a mapping, a boolean
+var nonString = map[string]bool{"7": true, "[command]": true, "{wait: x}": true, "true": true, "2.5": true, "[]": true, "[[wait]]": true}
 
 func byType(t string) string {
 	switch t {
@@ -90,7 +94,7 @@ func TestC15(t *testing.T) {
 						add(k, values[k])
 					}
 				}
-				if ty == "7" {
+				if nonString[ty] {
 					add("type", ty) // a non-string type
 				} else if ty != "" {
 					add("type", fmt.Sprintf("%q", ty))
